@@ -407,10 +407,9 @@ class Bus (objects.DBusObject):
 
                 return client.NAME_ALREADY_OWNER
             else:
-                if not replace_existing:
-                    return client.NAME_IN_USE
-
-                if owner.busNames[name]:
+                if replace_existing and owner.busNames[name]:
+                    if caller in queue:
+                        queue.remove(caller)  # it was waiting for the name
                     del queue[0]
                     queue.insert(0, caller)
                     del owner.busNames[name]
@@ -420,9 +419,14 @@ class Bus (objects.DBusObject):
                     return client.NAME_ACQUIRED
                 else:
                     if do_not_queue:
+                        if caller in queue:
+                            # it no longer wants to wait
+                            queue.remove(caller)
+                            del caller.busNames[name]
                         return client.NAME_IN_USE
 
-                    queue.append(caller)
+                    if caller not in queue:
+                        queue.append(caller)
                     caller.busNames[name] = allow_replacement
 
                     return client.NAME_IN_QUEUE
